@@ -248,7 +248,8 @@ package sizes
 // A row is written iff the item is shown (C11), and the footnote table stays
 // well-formed (C19).
 //@ func (*item).Emit
-//@   requires t.indent >= 0 && wfFootnotes(t.footnotes) && i.scale > 0.0 && finite(i.scale) && validHumaner(&i.humaner) && t.nameStyle >= 0 && t.nameStyle <= 2
+//@   requires wfFootnotes(t.footnotes) && t.nameStyle >= 0 && t.nameStyle <= 2
+//@   requires @assume:A-ITEMS t.indent >= 0 && i.scale > 0.0 && finite(i.scale) && validHumaner(&i.humaner)
 //@   modifies t.footnotes.footnotes, map(t.footnotes.indexes)
 //@   call 0 levelOfConcern as loc
 //@   call 0 formatRow as row
@@ -267,8 +268,8 @@ package sizes
 //@   call 0 json.Marshal as js
 //@   ensures same(result0, js0) && result1 == js1
 
-//@ property C19: NewFootnotes (*Footnotes).CreateCitation (*item).Emit
-//@ property C11: (*item).levelOfConcern (*item).Emit (*item).MarshalJSON (*item).Footnote lemma/threshold_monotone lemma/verbose_shows_all
+//@ property C19: NewFootnotes (*Footnotes).CreateCitation (*item).Emit (*section).Emit (*indentedItem).Emit (*HistorySize).TableString
+//@ property C11: (*item).levelOfConcern (*item).Emit (*item).MarshalJSON (*item).Footnote lemma/threshold_monotone lemma/verbose_shows_all (*table).indented (*table).subTable (*table).addSection (*section).Emit (*indentedItem).Emit (*HistorySize).TableString (*HistorySize).JSON (*table).formatSectionHeader (*table).emitBlankRow
 //@ property C07: (*table).formatRow
 //@ property C05: (*item).levelOfConcern (*item).MarshalJSON
 //@ property C09: (*TreeSize).addDescendent (*TreeSize).addBlob (*TreeSize).addLink (*TreeSize).addSubmodule (*HistorySize).recordBlob (*HistorySize).recordTree (*HistorySize).recordCommit (*HistorySize).recordTag
@@ -602,15 +603,107 @@ package sizes
 //@ property C08: (*Path).BestPath (*Path).Path (*Path).TreePrefix (*Path).String setPath (*HistorySize).recordBlob (*HistorySize).recordTree (*HistorySize).recordCommit (*HistorySize).recordTag (*item).Footnote
 //@ property C19: (*Path).MarshalJSON (*item).MarshalJSON
 
-// Rendering entry points: given contracts so that callers are checked against
-// them instead of inlining the whole renderer (their parts are under contract
-// individually: contents' items via Emit/levelOfConcern/formatRow/footnotes).
-//@ assumed func (*HistorySize).TableString
-//@   trust A-CALLEE-UNVERIFIED
+// ---------------------------------------------------------------- output.go: table assembly (C11, C19)
+// What is written into a bytes.Buffer is library state and not modelled
+// (A-STD-FRAME); the contracts below pin the control structure of the
+// assembly through the calls that are made: which sub-table every content is
+// emitted into, when a section header / blank row / sub-table body is
+// appended, and when the "no problems" line replaces the table.
+// A-ITEMS: items are built by contents() with a positive finite reference
+// value and one of the package's humaners, and are never top-level contents.
+//@ iface tableContents.Emit
+//@   requires wfFootnotes(t.footnotes) && t.nameStyle >= 0 && t.nameStyle <= 2 && t.indent >= -1
+//@   modifies fieldmem(Footnotes.footnotes), mapsof(Footnotes)
+//@   ensures wfFootnotes(t.footnotes)
+//@ iface tableContents.CollectItems
+//@   modifies map(items)
+
+//@ func (*table).indented
 //@   pure
-//@ assumed func (*HistorySize).JSON
-//@   trust A-CALLEE-UNVERIFIED
+//@   ensures result != nil && fresh(result)
+//@   ensures same(result.threshold, t.threshold)
+//@   ensures result.nameStyle == t.nameStyle && result.footnotes == t.footnotes
+//@   ensures result.indent == t.indent + depth
+//@   ensures same(result.sectionHeader, sectionHeader)
+
+//@ func (*table).subTable
 //@   pure
+//@   ensures result != nil && fresh(result) && same(result.threshold, t.threshold) && result.nameStyle == t.nameStyle && result.footnotes == t.footnotes && result.indent == t.indent + 1 && same(result.sectionHeader, sectionHeader)
+
+// A sub-table with rows is appended after its section header (first
+// sub-table of this table, header not empty) or after a blank row (later
+// sub-tables of the top level); an empty sub-table leaves no trace.
+//@ func (*table).addSection
+//@   requires t.indent >= 0 || (t.indent == -1 && len(subTable.sectionHeader) == 0)
+//@   pure
+//@   call 0 Len as subLen
+//@   call 1 Len as ownLen
+//@   call 0 formatSectionHeader as hdr
+//@   call 0 emitBlankRow as blank
+//@   call 0 Fprint as body
+//@   call 0 Len assert arg_0 == &subTable.buf
+//@   call 1 Len assert arg_0 == &t.buf
+//@   call 0 formatSectionHeader assert same(arg_1, subTable.sectionHeader)
+//@   ensures body_reached == (subLen > 0)
+//@   ensures hdr_reached == (subLen > 0 && ownLen == 0 && len(subTable.sectionHeader) > 0)
+//@   ensures blank_reached == (subLen > 0 && ownLen != 0 && t.indent == -1)
+
+//@ func (*table).formatSectionHeader
+//@   requires t.indent >= 0
+//@   pure
+//@ func (*table).emitBlankRow
+//@   pure
+
+// Every content of a section is emitted into its own fresh sub-table, headed
+// by the section's name and one level deeper, which is then appended.
+//@ func (*section).Emit
+//@   requires wfFootnotes(t.footnotes) && t.nameStyle >= 0 && t.nameStyle <= 2 && t.indent >= -1
+//@   requires @assume:A-ITEMS t.indent < 1000000 && (t.indent >= 0 || len(s.name) == 0)
+//@   modifies fieldmem(Footnotes.footnotes), mapsof(Footnotes)
+//@   ghost nEmit counts tableContents.Emit
+//@   ghost nAdd counts addSection
+//@   call 0 subTable as st
+//@   call 0 subTable assert same(arg_1, s.name)
+//@   call 0 tableContents.Emit assert arg_0 == st
+//@   call 0 addSection assert arg_1 == st
+//@   loop 0 invariant nEmit == rangeindex + 1 && nAdd == rangeindex + 1 && wfFootnotes(t.footnotes)
+//@   ensures nEmit == len(s.contents) && nAdd == len(s.contents)
+//@   ensures wfFootnotes(t.footnotes)
+
+//@ func (*indentedItem).Emit
+//@   requires wfFootnotes(t.footnotes) && t.nameStyle >= 0 && t.nameStyle <= 2 && t.indent >= -1
+//@   requires @assume:A-ITEMS t.indent >= 0 && t.indent < 1000000 && i.depth >= 0 && i.depth < 1000
+//@   modifies fieldmem(Footnotes.footnotes), mapsof(Footnotes)
+//@   call 0 indented as st
+//@   call 0 indented assert arg_2 == i.depth
+//@   call 0 tableContents.Emit assert arg_0 == st
+//@   call 0 addSection assert arg_1 == st
+//@   ensures wfFootnotes(t.footnotes)
+
+// "when no row qualifies a single 'no problems' line is printed instead of a
+// table": decided on the length of the assembled buffer; otherwise header,
+// rows and footnotes in this order.
+//@ func (*HistorySize).TableString
+//@   requires @assume:A-ENUM-NAMESTYLE nameStyle >= 0 && nameStyle <= 2
+//@   call 0 contents as cts
+//@   call 0 tableContents.Emit as em
+//@   call 0 Len as bufLen
+//@   call 0 generateHeader as gh
+//@   call 0 Buffer).String as body
+//@   call 0 Footnotes).String as fn
+//@   call 0 tableContents.Emit assert same(arg_0.threshold, threshold) && arg_0.nameStyle == nameStyle
+//@   call 0 tableContents.Emit assert arg_0.indent == -1
+//@   call 0 tableContents.Emit assert wfFootnotes(arg_0.footnotes)
+//@   ensures em_reached
+//@   ensures bufLen == 0 ==> result == "No problems above the current threshold were found\n"
+//@   ensures bufLen != 0 ==> keyof(result) == catkeys(gh, body, fn)
+
+// JSON: exactly the items collected from the same contents, marshalled once.
+//@ func (*HistorySize).JSON
+//@   call 0 contents as cts
+//@   call 0 CollectItems as ci
+//@   call 0 MarshalIndent as mi
+//@   ensures ci_reached && mi_reached && same(result0, mi0) && result1 == mi1
 
 // ---------------------------------------------------------------- grouper.go, graph.go: references (C07, C01)
 // CollectReferences: one RefRoot per reference that git reports, carrying the
